@@ -268,6 +268,12 @@ def schema_graph(rnd, bnodes=True, inverse_safe=False, typed_classes=True):
                 if rng[0] == "lit" or (litmix and rnd.random() < .5):
                     for _ in range(rnd.choice([1, 1, 2])):
                         T.add((n, p, _lit(rnd)))
+    # some instances carry a second type, a class nothing else refers to (ex:carol a foaf:Person, ex:Employee): with target
+    # classes that leave it out, the extra rdf:type value is a feature like any other
+    if rnd.random() < .3:
+        for c in classes:
+            for n in rnd.sample(inst[c], rnd.randint(0, len(inst[c]))):
+                T.add((n, M.RDF_TYPE, M.iri(EX + "X%d" % rnd.randint(0, 1))))
     # the classes themselves described in the data (typed with a meta-class): with all-classes mode they are instances too
     if typed_classes and rnd.random() < .3:
         for c in classes:
@@ -331,6 +337,32 @@ def boundary_graph(rnd):
             T.append((x, EX + "f%d" % j, M.lit("v") if j != 1 else nodes[0]))
     rnd.shuffle(T)
     return T, [[k, n] for k in ks]
+
+
+def partly_typed_case(rnd, cid):
+    """a property whose IRI values are only partly instances of a shape: every instance of A has 1-3 values that are instances of S
+    and 0-2 untyped IRI values (no blank nodes), so the 'IRI' statement and the '@S' statement of the property carry different
+    exact cardinalities and compete in the node-kind merge; the number of S values varies between instances"""
+    n = rnd.randint(3, 6)
+    A = [M.iri(EX + "a%d" % i) for i in range(n)]
+    T = [(x, M.RDF_TYPE, M.iri(EX + "A")) for x in A]
+    sid = 0
+    base_s, base_u = rnd.randint(1, 2), rnd.randint(0, 2)
+    for i, x in enumerate(A):
+        ks = base_s if rnd.random() < .6 else rnd.randint(1, 3)
+        ku = base_u if rnd.random() < .7 else rnd.randint(0, 2)
+        for _ in range(ks):
+            s_ = M.iri(EX + "s%d" % sid)
+            sid += 1
+            T += [(x, EX + "p", s_), (s_, M.RDF_TYPE, M.iri(EX + "S"))]
+        for j in range(ku):
+            T.append((x, EX + "p", M.iri(EX + "u%d_%d" % (i, j))))
+        if rnd.random() < .4:
+            T.append((x, EX + "q", M.lit("v")))
+    rnd.shuffle(T)
+    cfg = switches(rnd, inverse=rnd.random() < .2)
+    cfg.update(keepLess=rnd.random() < .35, report="mixed", comments=True, thr=rnd.choice([[0, 1], [0, 1], [1, 2]]))
+    return case(cid, T, **cfg)
 
 
 def hub_case(rnd, cid):
